@@ -191,10 +191,26 @@ class KernelOracle:
                 raise core.Undecided("mala noise draw not found")
             name, xi, a, k = dr[-1]
             xi = as_vec(xi)
-            std = float(np.ravel(a[1])[0]) if len(a) > 1 else float(np.ravel(k.get("scale"))[0])
+            std_v = np.ravel(np.asarray(a[1] if len(a) > 1 else k.get("scale"), float))
+            std = float(std_v[0])
             eps = std * std
             g = self.refs["ref_grad"](x)
             drift = xs - x - xi
+            if std_v.size == x.size and x.size > 1 and not np.allclose(std_v, std_v[0]):
+                # per-component step sizes: x*_i = x_i + (eps_i/2) g_i + sqrt(eps_i) z_i, q(x*|x) = prod_i N(x*_i; mu_i, eps_i)
+                eps_v = std_v ** 2
+                if not close(drift, 0.5 * eps_v * g, 1e-9) and np.linalg.norm(drift - 0.5 * eps_v * g) > 1e-9 * (1 + np.linalg.norm(drift)):
+                    raise core.Undecided("proposal does not fit x + (eps/2)*grad + xi (vector step)")
+                lx, lxs = self.refs["ref_logd"](x), self.refs["ref_logd"](xs)
+                self._mag = abs(lx) + abs(lxs)
+                if fk is not None or not np.isfinite(lxs):
+                    return None, xs, True
+                gs = self.refs["ref_grad"](xs)
+                q_fwd = -0.5 * float(np.sum((xs - (x + 0.5 * eps_v * g)) ** 2 / eps_v))
+                q_bwd = -0.5 * float(np.sum((x - (xs + 0.5 * eps_v * gs)) ** 2 / eps_v))
+                self._mag += abs(q_fwd) + abs(q_bwd)
+                self.ctx.hit("mala_vector_step")
+                return min(0.0, lxs - lx + q_bwd - q_fwd), xs, False
             gg = float(g @ g)
             c = float(drift @ g / gg) if gg > 0 else 0.0
             if not close(drift, c * g, 1e-9) and np.linalg.norm(drift - c * g) > 1e-9 * (1 + np.linalg.norm(drift)):
@@ -400,6 +416,9 @@ def gen_case(r, tier):
         if r.random() < 0.3:
             st_ = {"op": "step", "n": r.randint(3, 25)}
             ops = [st_] if (r.random() < 0.5 and sc["knobs"].get("scale", 1) is not None) else ops + [st_]
+    if kind == "MALA" and sc["target"].get("dim", 1) > 1 and r.random() < 0.12:
+        sc["knobs"]["scale"] = [round(r.uniform(0.01, 0.3), 3) for _ in range(sc["target"]["dim"])]
+        sc["vector_step"] = True
     sc["iface"] = iface
     sc["fault_rate"] = r.choice([0.0, 0.0, 0.05, 0.15])
     sc["fault_kind"] = r.choice(["nan", "-inf"])
@@ -451,10 +470,17 @@ class MHRun:
             pg.fault_pred = gpred
 
     def run(self):
-        if self.iface == "exp":
-            self._run_exp()
-        else:
-            self._run_legacy()
+        try:
+            if self.iface == "exp":
+                self._run_exp()
+            else:
+                self._run_legacy()
+        except ValueError:
+            if not self.sc.get("vector_step"):
+                raise
+            # per-component step sizes for MALA: the library refuses them (ambiguous truth value); a refusal is fine,
+            # a run that goes through is judged by the per-component reference
+            self.ctx.count("mala_vector_step_refused")
 
     # ------------------------------------------------------------------ experimental
     def _cached(self, s):
